@@ -38,6 +38,15 @@ func runC14(c *core.Ctx) {
 	ruleSaveStores(c)
 	c.Doc("C14.typed", "generated onPropertyChange rejects undecodable bytes; generated Get<Prop> checks the signature first", 4)
 	ruleTypedProperties(c)
+	// one change event per accepted write to each subscriber: the emission
+	// loop serves every subscriber, and the client forwards only Event
+	// messages (rules shared with C13)
+	c.Doc("C13.select", "change events go to every subscriber of the property and only to them", 2)
+	ruleUpdateSignalSelects(c)
+	if a := getEP(c, "C14.anchors"); a != nil {
+		c.Doc("C13.forwarding", "subscribers are forwarded Event messages only, in order, channel closed once", 6)
+		ruleForwarders(c, a)
+	}
 }
 
 func ruleValidateSaveNotify(c *core.Ctx, recv, name string) {
